@@ -733,4 +733,45 @@ OK("c15-benign-signer-copy-rewrite", "C15", "sigver.py",
    "            if sigkey:\n                signer = RSASigner(signer.digest, sigkey)\n            else:\n                signer = RSASigner(signer.digest, self.key)",
    "            signer = RSASigner(signer.digest, sigkey if sigkey else self.key)")
 
+# ------------------------------------------------------------------ C16
+V("c16-accessor-wrong-service", "C16", "mdstore.py",
+  "        return self.service(entity_id, \"idpsso_descriptor\",\n                            \"single_sign_on_service\", binding)",
+  "        return self.service(entity_id, \"idpsso_descriptor\",\n                            \"single_signon_service\", binding)", rule="M1", count=2)
+V("c16-accessor-wrong-descriptor", "C16", "mdstore.py",
+  "        return self.service(entity_id, \"spsso_descriptor\",\n                            \"assertion_consumer_service\", binding)",
+  "        return self.service(entity_id, \"idpsso_descriptor\",\n                            \"assertion_consumer_service\", binding)", rule="M1")
+V("c16-providers-key-again", "C16", "mdstore.py",
+  "        return self._providers(\"attribute_authority_descriptor\")", "        return self._providers(\"attribute_authority\")",
+  rule="M1")
+V("c16-certs-wrong-key", "C16", "mdstore.py",
+  "for dat in key[\"key_info\"][\"x509_data\"]:", "for dat in key[\"keyinfo\"][\"x509_data\"]:", rule="M1", count=2)
+V("c16-validity-check-inverted", "C16", "mdstore.py",
+  "                if not valid(entity_descr.valid_until):\n                    logger.error(\"Entity descriptor",
+  "                if valid(entity_descr.valid_until):\n                    logger.error(\"Entity descriptor", rule="M2")
+V("c16-expired-entity-kept", "C16", "mdstore.py",
+  "                    self.to_old.append(entity_descr.entity_id)\n                    return\n",
+  "                    self.to_old.append(entity_descr.entity_id)\n", rule="M2")
+V("c16-expired-document-loaded", "C16", "mdstore.py",
+  "                        raise ToOld(\n                            \"Metadata not valid anymore, it's only valid \"\n                            \"until %s\" % (\n                                self.entities_descr.valid_until,))",
+  "                        logger.error(\n                            \"Metadata not valid anymore, it's only valid \"\n                            \"until %s\" % (\n                                self.entities_descr.valid_until,))",
+  rule="M2")
+V("c16-check-validity-default-off", "C16", "mdstore.py",
+  "    def __init__(self, attrc, metadata=\"\", node_name=None,\n                 check_validity=True, security=None, **kwargs):",
+  "    def __init__(self, attrc, metadata=\"\", node_name=None,\n                 check_validity=False, security=None, **kwargs):", rule="M2")
+V("c16-duplicate-overwrites", "C16", "mdstore.py",
+  "                  entity_descr.entity_id, file=sys.stderr)\n            return\n",
+  "                  entity_descr.entity_id, file=sys.stderr)\n", rule="M6")
+V("c16-invalid-sig-true", "C16", "mdstore.py",
+  "                return True\n            else:\n                return False\n        else:\n            return True",
+  "                return True\n            else:\n                return True\n        else:\n            return True", rule="M5")
+V("c16-new-discarding-caller", "C16", "mdstore.py",
+  "    def imp(self, spec):",
+  "    def reload(self, key):\n        _md = self.metadata[key]\n        _md.load()\n\n    def imp(self, spec):",
+  rule="M5")
+V("c16-attr-req-other-entity", "C16", "mdstore.py",
+  "            for sp in self[entity_id][\"spsso_descriptor\"]:", "            for sp in list(self.entity.values())[0][\"spsso_descriptor\"]:",
+  rule="M4")
+OK("c16-benign-log", "C16", "mdstore.py",
+   "logger.error(\"Unknown system entity: %s\", entity_id)", "logger.warning(\"Unknown system entity: %s\", entity_id)")
+
 VARIANTS[:] = [v for v in VARIANTS if v]
